@@ -108,40 +108,66 @@ class SingleFault(Scenario):
         import uuid as _uuid
         U = [_uuid.UUID(int=i + 1) for i in range(12)]      # fixed identifiers: the reader's recovery paths depend on their order
         ws = Workspace()
-        g = ContainerGroup.create(ws, name="G", uid=U[0])
-        o = Curve.create(ws, vertices=real_np.arange(9.0).reshape(3, 3), cells=real_np.array([[0, 1], [1, 2]], dtype="int32"), name="O",
-                         parent=g, uid=U[1])
-        d1 = o.add_data({"D1": {"values": real_np.arange(3.0), "uid": U[2]}})
-        r1 = o.add_data({"R1": {"values": real_np.array([1, 2, 1], dtype="int32"), "type": "referenced", "value_map": {1: "a", 2: "b"},
-                                "uid": U[3]}})
-        o.find_or_create_property_group(name="PG", properties=[d1.uid], uid=U[6])
-        o.find_or_create_property_group(name="PG2", properties=[r1.uid], uid=U[7])
-        o.metadata = {"k": 1}
-        p = Points.create(ws, vertices=real_np.arange(6.0).reshape(2, 3), name="P", uid=U[4])
-        s1 = p.add_data({"S1": {"values": real_np.arange(2.0), "uid": U[5]}})
-        from geoh5py.groups import DrillholeGroup
-        from geoh5py.objects import Drillhole
-        dg = DrillholeGroup.create(ws, name="DH", uid=U[8])
-        hole = Drillhole.create(ws, parent=dg, name="hole", collar=[0.0, 0.0, 0.0], uid=U[9],
-                                surveys=real_np.c_[[0.0, 10.0], [0.0, 0.0], [-90.0, -90.0]])
-        hole.add_data({"log": {"depth": real_np.array([1.0, 2.0]), "values": real_np.array([5.0, 6.0])}})
-        uid = {"o": o.uid, "d1": d1.uid, "p": p.uid, "s1": s1.uid}
-        type_users = {}
-        for e in (g, o, d1, r1, p, s1, dg, hole):
-            type_users.setdefault(str(e.entity_type.uid), set()).add(str(e.uid))
-        for nm in hole.get_data_list():         # the types of a hole's logs describe the hole (its logs are part of its record here)
-            for dd in hole.get_data(nm):
-                type_users.setdefault(str(dd.entity_type.uid), set()).add(str(hole.uid))
-        ws.close()
-        del g, o, d1, r1, p, s1, dg, hole
+        if self.params.get("file", "tree") == "grids":
+            from geoh5py.objects import Grid2D, BlockModel
+            g = ContainerGroup.create(ws, name="G", uid=U[0])
+            o = Grid2D.create(ws, origin=[1.0, 2.0, 3.0], u_cell_size=1.0, v_cell_size=2.0, u_count=2, v_count=2, rotation=30.0, name="O",
+                              parent=g, uid=U[1])
+            d1 = o.add_data({"D1": {"values": real_np.arange(4.0), "uid": U[2]}})
+            r1 = o.add_data({"R1": {"values": "some text", "type": "text", "association": "OBJECT", "uid": U[3]}})
+            o.find_or_create_property_group(name="PG", properties=[d1.uid], uid=U[6])
+            p = BlockModel.create(ws, origin=[0.0, 0.0, 0.0], u_cell_delimiters=real_np.array([0.0, 1.0, 2.0]),
+                                  v_cell_delimiters=real_np.array([0.0, 1.0]), z_cell_delimiters=real_np.array([0.0, -1.0]), name="P", uid=U[4])
+            s1 = p.add_data({"S1": {"values": real_np.arange(2.0), "uid": U[5]}})
+            uid = {"o": o.uid, "d1": d1.uid, "p": p.uid, "s1": s1.uid}
+            type_users = {}
+            for e in (g, o, d1, r1, p, s1):
+                type_users.setdefault(str(e.entity_type.uid), set()).add(str(e.uid))
+            ws.close()
+            del g, o, d1, r1, p, s1
+            grids = True
+        else:
+            grids = False
+            g = ContainerGroup.create(ws, name="G", uid=U[0])
+            o = Curve.create(ws, vertices=real_np.arange(9.0).reshape(3, 3), cells=real_np.array([[0, 1], [1, 2]], dtype="int32"), name="O",
+                             parent=g, uid=U[1])
+            d1 = o.add_data({"D1": {"values": real_np.arange(3.0), "uid": U[2]}})
+            r1 = o.add_data({"R1": {"values": real_np.array([1, 2, 1], dtype="int32"), "type": "referenced", "value_map": {1: "a", 2: "b"},
+                                    "uid": U[3]}})
+            o.find_or_create_property_group(name="PG", properties=[d1.uid], uid=U[6])
+            o.find_or_create_property_group(name="PG2", properties=[r1.uid], uid=U[7])
+            o.metadata = {"k": 1}
+            p = Points.create(ws, vertices=real_np.arange(6.0).reshape(2, 3), name="P", uid=U[4])
+            s1 = p.add_data({"S1": {"values": real_np.arange(2.0), "uid": U[5]}})
+            from geoh5py.groups import DrillholeGroup
+            from geoh5py.objects import Drillhole
+            dg = DrillholeGroup.create(ws, name="DH", uid=U[8])
+            hole = Drillhole.create(ws, parent=dg, name="hole", collar=[0.0, 0.0, 0.0], uid=U[9],
+                                    surveys=real_np.c_[[0.0, 10.0], [0.0, 0.0], [-90.0, -90.0]])
+            hole.add_data({"log": {"depth": real_np.array([1.0, 2.0]), "values": real_np.array([5.0, 6.0])}})
+            uid = {"o": o.uid, "d1": d1.uid, "p": p.uid, "s1": s1.uid}
+            type_users = {}
+            for e in (g, o, d1, r1, p, s1, dg, hole):
+                type_users.setdefault(str(e.entity_type.uid), set()).add(str(e.uid))
+            for nm in hole.get_data_list():         # the types of a hole's logs describe the hole (its logs are part of its record here)
+                for dd in hole.get_data(nm):
+                    type_users.setdefault(str(dd.entity_type.uid), set()).add(str(hole.uid))
+            ws.close()
+            del g, o, d1, r1, p, s1, dg, hole
+
         with self.engine(cx) as X:
             ws = Workspace(ws.h5file)
-            ws.get_entity(uid["o"])[0].vertices = mk_array(X, [cx.real(f"v{i}") for i in range(9)], (3, 3), "float64")
-            ws.get_entity(uid["p"])[0].vertices = mk_array(X, [cx.real(f"p{i}") for i in range(6)], (2, 3), "float64")
-            xv = [cx.real(f"x{i}") for i in range(3)]
+            nd1 = 4 if grids else 3
+            if grids:
+                ws.get_entity(uid["o"])[0].origin = [cx.real("v0"), cx.real("v1"), cx.real("v2")]
+                ws.get_entity(uid["p"])[0].origin = [cx.real("p0"), cx.real("p1"), cx.real("p2")]
+            else:
+                ws.get_entity(uid["o"])[0].vertices = mk_array(X, [cx.real(f"v{i}") for i in range(9)], (3, 3), "float64")
+                ws.get_entity(uid["p"])[0].vertices = mk_array(X, [cx.real(f"p{i}") for i in range(6)], (2, 3), "float64")
+            xv = [cx.real(f"x{i}") for i in range(nd1)]
             sv = [cx.real(f"s{i}") for i in range(2)]
             assume_not_ndv(cx, xv + sv)
-            ws.get_entity(uid["d1"])[0].values = mk_array(X, xv, (3,), "float64")
+            ws.get_entity(uid["d1"])[0].values = mk_array(X, xv, (nd1,), "float64")
             ws.get_entity(uid["s1"])[0].values = mk_array(X, sv, (2,), "float64")
             before = tree_snapshot(ws)
             ws.close()
@@ -213,7 +239,10 @@ class SingleFault(Scenario):
 
 def scenarios(tier, seed):
     # the item list has ~150 entries; sharded over the cores
-    return [SingleFault(lo=a, hi=a + 12) for a in range(0, 204, 12)]
+    S = [SingleFault(lo=a, hi=a + 12) for a in range(0, 204, 12)]
+    if tier == "thorough":
+        S += [SingleFault(lo=a, hi=a + 12, file="grids") for a in range(0, 180, 12)]
+    return S
 
 
 def main(tier, seed):
